@@ -93,6 +93,10 @@ class Module(object):
         self.source = source
         self.is_pkg = is_pkg
         self.tree = ast.parse(source, filename=path)
+        self.refactor_info = {}
+        if not os.environ.get("WV_NO_INLINE"):
+            from . import inline
+            self.tree, self.refactor_info = inline.apply(name, self.tree)
         if not os.environ.get("WV_NO_DESUGAR"):
             from .desugar import desugar
             self.tree = desugar(self.tree)
